@@ -115,7 +115,11 @@ def generate(prop, rng, run, tier):
         try_enc = list(DEFAULT_ENCODINGS)
         rng.shuffle(try_enc)
     else:
-        try_enc = rng.sample(["utf-8", "cp1252", "cp932", "cp949", "ascii", "latin-1"],
+        try_enc = rng.sample(["utf-8", "cp1252", "cp932", "cp949", "ascii", "latin-1",
+                              # aliases and relatives: what is reported is the listed name, what
+                              # decodes is what Python's codec of that name decodes
+                              "korean", "euc_kr", "shift_jis", "windows-1252", "utf8", "latin1",
+                              "big5", "gbk", "cp437"],
                              rng.randint(1, 3))
     if prop == "C05" and rng.random() < 0.06:
         # invalid everywhere (for the UnicodeDecodeError clause)
